@@ -1,4 +1,5 @@
 import os
+import re
 
 VERIF = os.path.dirname(os.path.dirname(os.path.abspath(__file__)))
 
@@ -89,3 +90,19 @@ CLONE_STACKFRAME = """impl<'s> Clone for StackFrame<'s> {
     fn clone(&self) -> (r: Self) ensures r == *self { unimplemented!() }
 }
 """
+
+
+def label_helper_lemmas(text, prop):
+    """Every proof function of the lemma text whose statement carries no label gets one (named after the function, charged to `prop`):
+    a step of the refinement that fails is a failed obligation of that property, not an anonymous event."""
+    out, pos = [], 0
+    for m in re.finditer(r"(?m)^pub proof fn (\w+)", text):
+        body = text.find("\n{", m.end())
+        hdr = text[m.end():body if body >= 0 else len(text)]
+        if "/*@L:" in hdr or "ensures" not in hdr:
+            continue
+        e = text.index("ensures", m.end())
+        out.append(text[pos:e + len("ensures")] + " /*@L:%s:%s*/" % (m.group(1), prop))
+        pos = e + len("ensures")
+    out.append(text[pos:])
+    return "".join(out)
